@@ -209,6 +209,15 @@ def check(cx):
                 r4.violation('process_topic|set-empty', 'an empty text can be stored as topic instead of clearing it', loc=cx.loc(e.node))
             if not okv:
                 r4.violation('process_topic|stored-value', 'the stored topic is not (given text, setter nick)', loc=cx.loc(e.node))
+    # ... and the constructor stores what it is given (the announcement relays the original text: both must be the same topic)
+    fct = cx.fn('new_with_nick', 'ChannelTopic')
+    wct = cx.walk(fct, args=[('param', 'topic'), ('param', 'nick')], key='c09')
+    r4.instance('ChannelTopic::new_with_nick stores (topic, nick) verbatim')
+    cv = wct.retval
+    okc = bool(cv) and cv[0] == 'adt' and dict(cv[3]).get('topic') == ('param', 'topic') and dict(cv[3]).get('nick') == ('param', 'nick')
+    if not okc:
+        r4.violation('ChannelTopic::new_with_nick|stored-value', 'the topic record does not hold the given text and setter unchanged: later '
+                     'TOPIC / LIST / JOIN replies show something else than what was announced', loc=fct)
     r4.instance('every permitted TOPIC change is applied')
     ok, m = entails(W, Or(*[e.pc for e, x in writes])) if writes else (True, None)
     if not ok:
